@@ -17,7 +17,8 @@ import warnings
 import numpy as np
 
 from sim.kernel import EventLog, PlanRng, Violation, call, sig
-from sim.seams import own_entropy, SolveSeam, import_dreye
+from sim.seams import (LineInterrupter, SimInterrupt, SolveSeam, WarningsAsErrors, import_dreye,
+                       own_entropy)
 
 ID = "C05"
 PANEL_PER_MODE = 3
@@ -203,8 +204,10 @@ def random_exec(rng: PlanRng, n_u, n_base, mode, max_n=None):
           "kinds": sorted(set(kinds)),
           # memory layout / container of the arrays handed to the call (values identical)
           "layout": rng.choice(["C", "F", "strided", "list", "readonly"], p=[5, 2, 1, 1, 1])}
-    if mode == "faults" and rng.coin(0.6):
-        ex["fault"] = {"kind": "solver_error", "k": rng.integers(0, 12)}
+    if mode == "faults" and rng.coin(0.7):
+        ex["fault"] = {"kind": rng.choice(["solver_error", "line_interrupt", "warnings_as_errors"],
+                                          p=[0.5, 0.35, 0.15]),
+                       "k": rng.integers(0, 12), "frac": float(sig(rng.random(), 4))}
     return ex
 
 
@@ -498,14 +501,15 @@ def execute(plan):
             n = len(seq)
             fault = ex.get("fault")
             bc = batch_class(n, bs)
-            if fault:
+            lay = ex.get("layout", "C")
+            if fault and fault["kind"] == "solver_error":
                 # learn the solve count of this call, then fail its k-th solve
                 with SolveSeam(cold=not ex["warm"]) as s0:
-                    r_clean = call(run_fit, plan, est, seq, bs, l1_all, None, ex.get("layout", "C"))
+                    r_clean = call(run_fit, plan, est, seq, bs, l1_all, None, lay)
                 steps += s0.count
                 k = fault["k"] % s0.count if s0.count else 0
                 with SolveSeam(fail_at={k}, cold=not ex["warm"]) as s1:
-                    r_f = call(run_fit, plan, est, seq, bs, l1_all, None, ex.get("layout", "C"))
+                    r_f = call(run_fit, plan, est, seq, bs, l1_all, None, lay)
                 steps += s1.count
                 if s1.fired:
                     bump("fault:solver_error")
@@ -520,7 +524,27 @@ def execute(plan):
                     raise Violation(ID, "fault_changes_failure_mode",
                                     f"{proc}: injected SolverError at solve #{k} surfaced as "
                                     f"{r_f.brief()}", ex=ex)
-                # hidden state after an aborted solve sequence: the same call again, unfaulted
+            elif fault and fault["kind"] == "line_interrupt":
+                # the call is aborted (Ctrl-C) at a seeded dreye line; nothing may be left behind
+                with LineInterrupter(None) as li0:
+                    call(run_fit, plan, est, seq, bs, l1_all, None, lay)
+                if li0.count:
+                    with LineInterrupter(int(fault["frac"] * li0.count)) as li:
+                        try:
+                            call(run_fit, plan, est, seq, bs, l1_all, None, lay)
+                        except SimInterrupt:
+                            bump("fault:line_interrupt")
+                    log.add(ei, "interrupted", li.fired_at)
+            elif fault:
+                with WarningsAsErrors():
+                    r_w = call(run_fit, plan, est, seq, bs, l1_all, None, lay)
+                if not r_w.ok:
+                    bump("fault:warnings_as_errors")
+                log.add(ei, "warnings_as_errors", r_w)
+                if r_w.ok:
+                    Xw, Bw = r_w.value
+                    check_rows(np.asarray(Xw), np.asarray(Bw), seq, ex, "under -W error")
+            # hidden state after an aborted solve sequence: the same call again, unfaulted
             with SolveSeam(cold=not ex["warm"]) as seam:
                 out = call(run_fit, plan, est, seq, bs, l1_all, None, ex.get("layout", "C"))
             steps += seam.count
